@@ -14,7 +14,8 @@ Ltac dsl2 := cbv [dot_interp_src linear_interp_with_linear_extrap_src extrapolat
 (** evaluate lengths of the form S (S m) - 1, min (S (S m)) 1, (S m =? S m), ... *)
 Ltac lens := repeat (progress (cbn [fst snd Nat.min Nat.max Nat.sub Nat.add Nat.eqb];
                                rewrite ?Nat.add_0_r, ?Nat.add_1_r, ?Nat.min_0_r, ?Nat.sub_0_r, ?Nat.eqb_refl)).
-Ltac tests := repeat match goal with |- context [fltb ?a ?b] => destruct (fltb a b) end.
+Ltac tests := repeat match goal with |- context [fltb ?a ?b] => destruct (fltb a b) end;
+              repeat match goal with |- context [fleb ?a ?b] => destruct (fleb a b) end.
 
 Lemma iter_succ_r {A : Type} n (f : A -> A) x : Nat.iter (S n) f x = Nat.iter n f (f x).
 Proof.
@@ -28,7 +29,7 @@ Section InterpSrcThm.
   Local Notation arr := (arr F).
 
   Ltac fin2 := rewrite ?a_nat_2, ?a_nat_1; unfold two;
-               first [reflexivity | ring | solve [repeat (f_equal; try ring)]].
+               first [reflexivity | ring | solve [timeout 20 (repeat (f_equal; try ring))]].
 
   (** searchsorted(side='right') is the count of Model/Interp.v *)
   Lemma a_count_ssr n (xpf : nat -> F) x : a_count (fun v => fleb v x) (n, xpf) = ssr n xpf x.
